@@ -15,7 +15,7 @@ from ._pairs import compare_all, V
 
 PID = "C09"
 LEVEL = "model_checking"
-WITNESSES = ["compositions", "cut_inside_season", "cut_at_season_jump", "overshoot_call", "dedup_edges", "final_tables_compared", "reused_instance", "call_ends_exactly_at_termination", "numpy_step_counts", "weather_reassigned_between_calls"]
+WITNESSES = ["compositions", "cut_inside_season", "cut_at_season_jump", "overshoot_call", "dedup_edges", "final_tables_compared", "reused_instance", "call_ends_exactly_at_termination", "numpy_step_counts", "weather_reassigned_between_calls", "final_call_with_process_outputs"]
 NONTRIVIAL = ["cut_at_season_jump", "overshoot_call", "dedup_edges", "reused_instance", "call_ends_exactly_at_termination"]
 
 CONFIGS = {
@@ -245,9 +245,16 @@ def run(scn):
                         continue
                     ref.after(j, keep_model=True)
                     base = ref.models[j]
-                    for k in list(range(1, N - j + 1)) + [ref.total - j, ref.total + 5]:
+                    for k in list(range(1, N - j + 1)) + [ref.total - j, ref.total + 5, -(ref.total - j), -(ref.total + 5)]:
                         m = copy.deepcopy(base)
-                        m.run_model(num_steps=k, initialize_model=False)
+                        processed = k < 0
+                        if k < 0:
+                            # the same final calls (exact / overshooting) asking for the tables to be processed at the end of the call
+                            k = -k
+                            m.run_model(num_steps=k, initialize_model=False, process_outputs=True)
+                            wit["final_call_with_process_outputs"] = wit.get("final_call_with_process_outputs", 0) + 1
+                        else:
+                            m.run_model(num_steps=k, initialize_model=False)
                         res["evals"] += 1
                         wit["dedup_edges"] = wit.get("dedup_edges", 0) + 1
                         if k == ref.total - j:
@@ -255,12 +262,12 @@ def run(scn):
                             res["transitions"] += k
                             wit["call_ends_exactly_at_termination"] = wit.get("call_ends_exactly_at_termination", 0) + 1
                             check_final(m, ref, res, {"from": j, "call": k, "exact": True})
-                            if canon_state(m, with_outputs=True) != ref.final_canon:
+                            if not processed and canon_state(m, with_outputs=True) != ref.final_canon:
                                 res["violations"].append(V("exact-call-reaches-final-state", j, {"from": j, "call": k}, "state of the uninterrupted run", sig=["exact"]))
                         elif k > ref.total:
                             res["transitions"] += ref.total - j
                             check_final(m, ref, res, {"from": j, "call": k})
-                            if canon_state(m, with_outputs=True) != ref.final_canon:
+                            if not processed and canon_state(m, with_outputs=True) != ref.final_canon:
                                 res["violations"].append(V("overshoot-stops-at-termination", j, {"from": j, "call": k}, "state of the uninterrupted run", sig=["overshoot"]))
                         else:
                             res["transitions"] += k
@@ -317,6 +324,6 @@ def describe(tier):
         "exhaustive": True,
         "witnesses": WITNESSES,
         "assumptions": ["the canonical form contains everything a step reads (cross-checked by the brute-force part in every run)",
-                        "process_outputs is left at its default (False), as in the statement's quantifier",
+                        "process_outputs is left at its default (False) in every call but the last; the final (exact or overshooting) call is made both without and with process_outputs=True",
                         "a re-used instance is stepped with initialize_model=True on its first call only (the run is re-initialised once, not in between)"],
     }
